@@ -8,6 +8,7 @@ use ark_ec::pairing::{Pairing, PairingOutput};
 use ark_ec::{AffineRepr, CurveGroup, Group};
 use ark_ff::{Field, One, PrimeField, UniformRand, Zero};
 use ark_serialize::{CanonicalDeserialize, CanonicalSerialize, Compress, Validate};
+use rand_core::RngCore;
 use serde_json::json;
 
 const P: &str = "C16";
@@ -190,7 +191,7 @@ pub fn run(ctx: &Ctx, rec: &mut Rec) {
     // hostile point encodings: both engines must give the same verdict (and the same point)
     rec.declare_form("hostile encodings");
     rec.declare_form("cofactor clearing");
-    for cl in ["coordinate + p", "coordinate = p", "flag bits", "bit flip", "x+1 (off curve / other point)", "random bytes", "truncated", "on curve outside subgroup", "related to a validated point", "zero-component point", "unvalidated mode"] {
+    for cl in ["coordinate + p", "coordinate = p", "flag bits", "bit flip", "x+1 (off curve / other point)", "random bytes", "truncated", "on curve outside subgroup", "related to a validated point", "zero-component point", "subgroup point + small-order point", "unvalidated mode"] {
         rec.declare_class(&format!("enc:{cl}"));
     }
     par(rec, |w, n, rec| {
@@ -338,6 +339,64 @@ pub fn run(ctx: &Ctx, rec: &mut Rec) {
                     }
                 }
             }
+            // cosets of the prime-order subgroup by points of small order: P0 + T with P0 = k*G and T of order
+            // l for every small prime l dividing the cofactor (T = [#E / l] R for a random curve point R, plus the
+            // obvious (-1, 0) and (0, +-1)); and wide scalars (5..8 limbs) applied to such non-members
+            if rep % 3 == 0 {
+                use ark_ec::short_weierstrass::{Affine as SW, SWCurveConfig};
+                use ark_ec::CurveConfig;
+                type RefG1Cfg = <<Refe as Pairing>::G1Affine as AffineRepr>::Config;
+                type RFp = <Refe as Pairing>::BaseField;
+                let h = crate::model::from_limbs64(<RefG1Cfg as CurveConfig>::COFACTOR);
+                let order = &h * &f.p;
+                let mut small: Vec<u64> = Vec::new();
+                for l in [2u64, 3, 5, 7, 11, 13, 17, 19, 23, 29, 31, 37, 41, 43, 47, 499] {
+                    if (&h % b(l)) == b(0) {
+                        small.push(l);
+                    }
+                }
+                let mut torsion: Vec<SW<RefG1Cfg>> = vec![SW::<RefG1Cfg>::new_unchecked(-RFp::from(1u64), RFp::from(0u64)), SW::<RefG1Cfg>::new_unchecked(RFp::from(0u64), RFp::from(1u64))];
+                for l in &small {
+                    for _ in 0..8 {
+                        let x = RFp::rand(&mut rng);
+                        if let Some(r) = SW::<RefG1Cfg>::get_point_from_x_unchecked(x, true) {
+                            let t = r.mul_bigint((&order / b(*l)).to_u64_digits()).into_affine();
+                            if !t.is_zero() {
+                                torsion.push(t);
+                                break;
+                            }
+                        }
+                    }
+                }
+                let t = torsion[(rep / 3) % torsion.len()];
+                let shifted = (p1 + t).into_affine();
+                if !shifted.is_zero() && shifted.is_on_curve() {
+                    cases.push(("subgroup point + small-order point", false, Compress::Yes, ser(&shifted, Compress::Yes)));
+                    cases.push(("subgroup point + small-order point", false, Compress::No, ser(&shifted, Compress::No)));
+                    // wide scalars on the non-member, both engines, projective and affine entry points
+                    let wide: Vec<Vec<u64>> = vec![vec![0, 0, 0, 0, 1], vec![rng.next_u64(), rng.next_u64(), rng.next_u64(), rng.next_u64(), rng.next_u64(), rng.next_u64()], <RefG1Cfg as CurveConfig>::COFACTOR.to_vec(), order.to_u64_digits()];
+                    let res = guarded(|| -> Result<Vec<(Vec<u8>, Vec<u8>)>, String> {
+                        let ours: <Ours as Pairing>::G1Affine = <<Ours as Pairing>::G1Affine as CanonicalDeserialize>::deserialize_with_mode(&ser(&shifted, Compress::No)[..], Compress::No, Validate::No).map_err(|e| format!("{e:?}"))?;
+                        let mut out = vec![(vec![ours.is_in_correct_subgroup_assuming_on_curve() as u8], vec![shifted.is_in_correct_subgroup_assuming_on_curve() as u8])];
+                        for wsc in &wide {
+                            out.push((ser(&ours.into_group().mul_bigint(wsc).into_affine(), Compress::No), ser(&shifted.into_group().mul_bigint(wsc).into_affine(), Compress::No)));
+                            out.push((ser(&ours.mul_bigint(wsc).into_affine(), Compress::No), ser(&shifted.mul_bigint(wsc).into_affine(), Compress::No)));
+                        }
+                        Ok(out)
+                    });
+                    rec.form("hostile encodings");
+                    rec.class("enc:subgroup point + small-order point");
+                    match res {
+                        Err(pn) => rec.violation(format!("{P}:small-order-coset:panic"), pn, json!({})),
+                        Ok(Err(e)) => rec.violation(format!("{P}:small-order-coset:deserialise"), e, json!({})),
+                        Ok(Ok(out)) => {
+                            for (k, (a, bb)) in out.iter().enumerate() {
+                                cmp_bytes(rec, if k == 0 { "subgroup check of a small-order coset member" } else { "wide scalar on a non-member" }, a, bb, json!({"bytes": hx(&ser(&shifted, Compress::No)), "torsion_order_candidates": small}));
+                            }
+                        }
+                    }
+                }
+            }
             // a G1 point on the curve but (almost surely) outside the prime-order subgroup
             {
                 use ark_ec::short_weierstrass::Affine as SW;
@@ -393,7 +452,7 @@ pub fn run(ctx: &Ctx, rec: &mut Rec) {
             }
             // unvalidated modes: bytes of honest points and of (coordinate + p) variants through
             // Validate::No must still get the same verdict / value from both engines
-            let unchecked_cases: Vec<(bool, Compress, Vec<u8>)> = cases.iter().filter(|c| c.0 == "coordinate + p" || c.0 == "bit flip" || c.0 == "zero-component point" || c.0 == "on curve outside subgroup").map(|c| (c.1, c.2, c.3.clone())).collect();
+            let unchecked_cases: Vec<(bool, Compress, Vec<u8>)> = cases.iter().filter(|c| c.0 == "coordinate + p" || c.0 == "bit flip" || c.0 == "zero-component point" || c.0 == "on curve outside subgroup" || c.0 == "subgroup point + small-order point").map(|c| (c.1, c.2, c.3.clone())).collect();
             for (is_g2, c, bytes) in unchecked_cases {
                 rec.form("hostile encodings");
                 rec.class("enc:unvalidated mode");
